@@ -96,7 +96,9 @@ CLAIMED['C12'] = dict(
     text='All ten statistics are executed symbolically on 3x2 (4x2) symbolic events (integers '
          'with ties / positive reals), three containers and seven channel forms, against textbook '
          'definitions over the reals; the model replays the NumPy subclass hook sequence that '
-         'matters (percentile on a float sample).',
+         'matters (percentile on a float sample); plus, on a concrete 3x4 sample, every '
+         'arrangement of 3 or 4 of the four channels (positions, names, mixed) against the '
+         'single-channel results.',
     note='Trusted: symnp reductions and the scipy.stats.gmean/mode stubs, CrossHair, z3. FP '
          'rounding of reductions is outside.',
     ref='4/C12', technique=TECH)
@@ -107,7 +109,8 @@ CLAIMED['C05'] = dict(
          'edge, outside) judged against the returned bin_mask through an independent binning '
          'oracle; and the cut on a 2x2 grid where every bin density and the gate fraction are '
          'solver reals (the Gaussian filter is a stub returning arbitrary non-negative values, so '
-         'the cut is proved for every smoothing) and the kernel width is one of five forms.',
+         'the cut is proved for every smoothing) and the kernel width is one of five forms (quick: '
+         'two of the five per assignment job).',
     note='Trusted: symnp histogram2d/digitize/argsort models, CrossHair, z3. Stub smoothing is '
          'normalised to total 1 (WLOG). Outside: FP rounding of f*n, contour geometry, larger '
          'grids, sample-derived bins (C19).',
@@ -189,7 +192,7 @@ CLAIMED['C10'] = dict(
     note='The numeric content of each step is covered by C03/C05/C06/C08/C12/C19; pandas/openpyxl '
          'I/O and plots are outside; "counts sum to the events within the edges" is a property of '
          'np.histogram and is outside. Counterexamples are replayed on the real library with '
-         'generated FCS files and real pandas.',
+         'generated FCS files and real pandas (samples, statistics columns, histograms).',
     ref='4/C10', technique='free-term symbolic execution of the orchestrator (CrossHair)')
 CLAIMED['C11'] = dict(
     text='Same free-term execution with fault injection as solver choices: each row of a 3-row '
